@@ -99,6 +99,27 @@ def events(r, F):
         seen[who] = seen.get(who, set()) | ev
     r.require(seen.get("replaced") == {"Replace"}, em, "replaced record -> Event::Replace", "the record swapped out of the index leaves with Replace", "the replaced record is tagged %s" % seen.get("replaced"), ln=em.lo)
     r.require(seen.get("replaced-by-phantom") == {"Replace"}, em, "record replaced by a disk-only insert -> Event::Replace", "tagged Replace", "tagged %s" % seen.get("replaced-by-phantom"), ln=em.lo)
+    # ... and on every path of the disk-only branch (the never-admitted record always gets its leave notification)
+    ph = em.calls_to(r"Properties::phantom$")
+    self_pushes = []
+    for p_ in em.calls_to(r"Vec::<T, A>::push$"):
+        if 3 not in backslice(em, p_.term.args[0], "prov").args or p_.term.args[1].place is None:
+            continue
+        ds = [d for d in em.defs().get(p_.term.args[1].place.local, []) if d[2] == "assign" and d[3].rv.k == "agg" and not em.blocks[d[0]].cleanup]
+        if len(ds) == 1 and len(ds[0][3].rv.ops) == 2:
+            rsl = backslice(em, ds[0][3].rv.ops[1], "prov")
+            if 2 in rsl.args and not rsl.has_call(r"indexer::Indexer::(remove|insert)$"):
+                self_pushes.append(p_.idx)
+    okp = False
+    if len(ph) == 1:
+        for b in em.blocks:
+            if b.cleanup or b.term.k != "switch" or b.term.discr.place is None:
+                continue
+            if any(bb == ph[0].idx for bb, _ in backslice(em, b.term.discr, "prov", extra_transparent=[r"Option::<T>::unwrap_or(_default)?$"]).calls):
+                tt, ft = tables.bool_switch_targets(b)
+                okp = bool(self_pushes) and em.must_pass(tt, self_pushes)
+    r.require(okp, em, "phantom record is queued on every path of its branch", "from the `phantom` edge every path pushes (Remove, record)",
+              "the disk-only branch of emplace can return without queueing the record itself: it leaves memory without a notification and is never offered to the disk tier", ln=em.lo)
     r.require(seen.get("self") == {"Remove"}, em, "phantom record itself -> Event::Remove", "the never-admitted record leaves with Remove", "the phantom record is tagged %s" % seen.get("self"), ln=em.lo)
     # remove -> listener Remove ; clear -> listener Clear ; last drop of a phantom -> Evict
     for short, want in (("foyer_memory::raw::RawCache::remove", "Remove"), ("foyer_memory::raw::RawCacheInner::clear", "Clear"),
